@@ -833,7 +833,7 @@ class EvolvedMF:
 
                 # A turn-off bin truncated to (numerically) zero width, i.e.
                 # when mto ~ bin edge, holds stars of its lower-edge mass
-                thin = np.isnan(As)
+                thin = np.isnan(Ms)
                 Ms[thin] = Ns[thin] * bins_MS.lower[thin]
 
                 # ----------------------------------------------------------
@@ -1213,7 +1213,7 @@ class EvolvedMFWithBH(EvolvedMF):
 
                 # A turn-off bin truncated to (numerically) zero width, i.e.
                 # when mto ~ bin edge, holds stars of its lower-edge mass
-                thin = np.isnan(As)
+                thin = np.isnan(Ms)
                 Ms[thin] = Ns[thin] * bins_MS.lower[thin]
 
                 # ----------------------------------------------------------
